@@ -86,7 +86,7 @@ CHECKS = {
 CHECKS.update({
     "C06": ("exprgen", "exploration", "Hypothesis-generated typed condition expressions rendered as in-decorator lambdas; "
             "oracle = CPython evaluation of an instrumented copy of the same expression (per-node values), message parsed "
-            "and matched by AST",
+            "and matched by AST; thorough tier adds 16 coverage-guided atheris campaigns over the same test",
             "Conditions over the supported expression forms (names from arguments/closure/globals/builtins with "
             "shadowing, attributes, subscripts, slices, calls with keyword/star arguments, all operators, chains, "
             "conditional and assignment expressions, f-strings, displays, comprehensions, all/any) on require/ensure/"
@@ -98,7 +98,7 @@ CHECKS.update({
             "the completeness clause.", "4/C06, 3.3"),
     "C07": ("exprgen", "exploration", "Hypothesis-generated guarded partial operations and grammar expressions x source "
             "layouts x neighbouring decorators x nesting; oracles: CPython verdict, AST round-trip of the reported "
-            "text, probe-set inclusion",
+            "text, probe-set inclusion; thorough tier adds 16 coverage-guided atheris campaigns over the same test",
             "Guard templates (xs and xs[0] > k, o.child is None or ..., 0 < n < 10 // n, ...) with inputs on both sides "
             "of the guard and probe-instrumented grammar expressions are placed under seven decorator layouts, 0..2 "
             "neighbouring decorators above/below, three nestings, three roles, three error forms, sync/async; the "
@@ -213,10 +213,13 @@ def main():
             {"name": "exprgen", "path": "vf/exprgen/", "serves_properties": ["C06", "C07", "C20"],
              "kind_free_text": "typed expression grammar rendered as in-decorator lambdas; CPython evaluation of an "
                                "instrumented copy is the oracle"},
-            {"name": "sched", "path": "vf/sched.py", "serves_properties": ["C12"],
+            {"name": "sched", "path": "vf/props/c12.py", "serves_properties": ["C12"],
              "kind_free_text": "harness-owned schedules over gates in user code (asyncio tasks / threads)"},
-            {"name": "faults", "path": "vf/faults.py", "serves_properties": ["C11"],
+            {"name": "faults", "path": "vf/props/c11.py", "serves_properties": ["C11"],
              "kind_free_text": "fault injection at every point where the library calls user code"},
+            {"name": "fuzz", "path": "vf/fuzz.py", "serves_properties": ["C06", "C07"],
+             "kind_free_text": "atheris/libFuzzer campaigns over the exprgen Hypothesis tests (fuzz_one_input, icontract "
+                               "instrumented for coverage); thorough tier only, same oracles"},
         ],
         "checks": checks,
         "not_applicable": na,
